@@ -106,7 +106,7 @@ static int iterFactorReset(MPT_INTERFACE(iterator) *it)
 	MPT_STRUCT(iteratorFactor) *d = MPT_baseaddr(iteratorFactor, it, _it);
 	d->data.pos = 0;
 	d->data.curr = d->data.init;
-	return d->data.elem;
+	return d->data.elem > INT_MAX ? INT_MAX : (int) d->data.elem;
 }
 
 /*!
